@@ -107,6 +107,8 @@ def build(desc):
     c.n_labeled = int(c.lab.sum())
     c.n_classes_obs = len(set(c.y_true[c.lab].tolist())) if c.kind != "reg" else None
     c.strategy_seed = int(rng.randint(0, 2**31 - 1))
+    if rng.rand() < 0.08:
+        c.strategy_seed = 0           # 0 is a seed like any other (`random_state or default` treats it as None)
     c.ctx = {"classes": c.classes, "ml": np.nan, "kind": c.kind}
     return c
 
